@@ -328,35 +328,27 @@ def count_lines(path):
 
 # ---------------------------------------------------------------- observation check (O)
 def split_runs(records, workdir, shards, tag):
-    """Splits a record file into up to `shards` files at run boundaries (a record with ev.kind = init starts a run)."""
-    runs, cur = [], []
+    """Splits a record file into shard files at run boundaries (a record with ev.kind = init starts a run); streaming,
+    at most ~100 runs per shard (TLC holds a whole shard in memory; the shards are processed by a pool of PAR TLC processes)."""
+    nruns = 0
     with open(records) as f:
         for line in f:
-            if '"kind":"init"' in line and cur:
-                runs.append(cur)
-                cur = []
-            cur.append(line)
-    if cur:
-        runs.append(cur)
-    k = max(1, min(shards, len(runs)))
-    runs.sort(key=len, reverse=True)
-    bins = [[] for _ in range(k)]
-    sizes = [0] * k
-    for r in runs:
-        i = sizes.index(min(sizes))
-        bins[i].append(r)
-        sizes[i] += len(r)
+            if '"kind":"init"' in line:
+                nruns += 1
+    nruns = max(nruns, 1)
+    k = max(1, min(max(shards, (nruns + 99) // 100), nruns))
     os.makedirs(workdir, exist_ok=True)
-    out = []
-    for i, b in enumerate(bins):
-        if not b:
-            continue
-        p = os.path.join(workdir, "%s-shard-%d.ndjson" % (tag, i))
-        with open(p, "w") as f:
-            for r in b:
-                f.writelines(r)
-        out.append(p)
-    return out
+    paths = [os.path.join(workdir, "%s-shard-%d.ndjson" % (tag, i)) for i in range(k)]
+    outs = [open(p, "w") for p in paths]
+    cur = -1
+    with open(records) as f:
+        for line in f:
+            if '"kind":"init"' in line or cur < 0:
+                cur += 1
+            outs[cur % k].write(line)
+    for o in outs:
+        o.close()
+    return [p for p in paths if os.path.getsize(p) > 0]
 
 
 PAR = max(1, NCPU // 2)
